@@ -10,6 +10,7 @@ import (
 	"go/token"
 	"go/types"
 	"sort"
+	"strconv"
 	"strings"
 
 	"golang.org/x/tools/go/ssa"
@@ -27,6 +28,8 @@ type Term struct {
 	// literal: a struct term assembled from a composite literal (every field not listed
 	// holds its zero value)
 	literal bool
+	// ms: for a make([]T, n) term, the allocation (elements assigned at one place: elemOf)
+	ms *ssa.MakeSlice
 }
 
 func (t *Term) String() string      { return t.render(true) }
@@ -373,7 +376,11 @@ func (ts *Terms) compute(v ssa.Value, fr *Frame, depth int) *Term {
 	case *ssa.MakeMap:
 		return &Term{Op: "alloc", Name: "map", Site: x.Pos()}
 	case *ssa.MakeSlice:
-		return &Term{Op: "alloc", Name: "slice", Site: x.Pos()}
+		t := &Term{Op: "alloc", Name: "slice", Site: x.Pos(), ms: x, fr: fr}
+		if c, ok := x.Len.(*ssa.Const); ok && c.Value != nil && c.Value.ExactString() == "0" {
+			t.Args = []*Term{mk("const", "0")} // make([]T, 0, n): empty (not printed)
+		}
+		return t
 	case *ssa.Call:
 		return ts.call(x, fr, depth)
 	case *ssa.Next:
@@ -527,7 +534,29 @@ func (ts *Terms) load(addr ssa.Value, fr *Frame, depth int) *Term {
 		}
 		return mk("free", a.Name())
 	case *ssa.IndexAddr:
-		return mk("index", "", ts.loadBase(a.X, fr, depth+1), ts.of(a.Index, fr, depth+1))
+		if v := sliceElemStored(a, ts.cur); v != nil {
+			at := ts.cur
+			t := ts.of(v, fr, depth+1)
+			ts.cur = at
+			return t
+		}
+		base, idx := ts.loadBase(a.X, fr, depth+1), ts.of(a.Index, fr, depth+1)
+		if base.Op == "phi" {
+			// an element of a nil slice does not exist (the access panics): the other alternative
+			var alts []*Term
+			for _, al := range base.Args {
+				if al.Op != "nil" {
+					alts = append(alts, al)
+				}
+			}
+			if len(alts) == 1 {
+				base = alts[0]
+			}
+		}
+		if t := ts.elemOf(base, idx, depth); t != nil {
+			return t
+		}
+		return mk("index", "", base, idx)
 	}
 	// pointer value (e.g. msg *MsgX): a load of the whole struct is the pointer's term
 	return ts.of(addr, fr, depth+1)
@@ -700,6 +729,14 @@ func (ts *Terms) callArgs(c *ssa.Call, fr *Frame, depth int, skip ssa.Value) []*
 func (ts *Terms) call(x *ssa.Call, fr *Frame, depth int) *Term {
 	c := x.Common()
 	pkg, name := calleeName(c)
+	var dyn *ssa.Function
+	if pkg == "" && name == "" && !c.IsInvoke() {
+		// a call of a function value that is, on this chain, a known function
+		// (mapSlice(xs, sdk.AccAddress.String) calling f(v))
+		if dyn = resolveFnValue(c.Value, fr, 0); dyn != nil {
+			pkg, name = fnNames(dyn)
+		}
+	}
 	arg := func(i int) *Term {
 		if c.IsInvoke() {
 			if i == 0 {
@@ -797,7 +834,13 @@ func (ts *Terms) call(x *ssa.Call, fr *Frame, depth int) *Term {
 			return t
 		}
 	}
+	if t := ts.readCanon(x, fr); t != nil {
+		return t
+	}
 	t := &Term{Op: "call", Name: callName(x), Site: x.Pos(), src: x, fr: fr}
+	if t.Name == "" && dyn != nil {
+		t.Name = termNameOf(dyn)
+	}
 	if t.Name == "" && !c.IsInvoke() {
 		// call of a function value: name it by the value's origin
 		t.Name = "call[" + ts.of(c.Value, fr, depth+1).LooseString() + "]"
@@ -1251,4 +1294,271 @@ func zeroIfUnset(t *Term, ft types.Type) *Term {
 		return mk("const", `""`)
 	}
 	return t
+}
+
+// sliceElemStored: the value of xs[i] where xs is a local make([]T, n) whose elements are
+// assigned at exactly one place, xs[i] = v with the very same index value, before the load:
+//
+//	reqs := make([]Request, len(providers))
+//	for i, p := range providers { reqs[i] = build(p); store(ids[i], reqs[i]) }
+func sliceElemStored(a *ssa.IndexAddr, at ssa.Instruction) ssa.Value {
+	ms, ok := a.X.(*ssa.MakeSlice)
+	if !ok || at == nil || ms.Referrers() == nil {
+		return nil
+	}
+	var st *ssa.Store
+	for _, r := range *ms.Referrers() {
+		ia, ok := r.(*ssa.IndexAddr)
+		if !ok || ia.Referrers() == nil {
+			continue
+		}
+		for _, r2 := range *ia.Referrers() {
+			s, ok := r2.(*ssa.Store)
+			if !ok || s.Addr != ia {
+				continue
+			}
+			if st != nil || ia.Index != a.Index {
+				return nil
+			}
+			st = s
+		}
+	}
+	if st == nil || at.Block() == nil || st.Block() == nil {
+		return nil
+	}
+	if st.Block() == at.Block() {
+		for _, ins := range st.Block().Instrs {
+			if ins == ssa.Instruction(st) {
+				return st.Val
+			}
+			if ins == at {
+				return nil
+			}
+		}
+		return nil
+	}
+	if st.Block().Dominates(at.Block()) {
+		return st.Val
+	}
+	return nil
+}
+
+// elemOf: xs[j] for a slice built element by element in one loop, xs[i] = f(src[i]), and
+// read in another loop (possibly in a callee the slice was handed to): the element pattern
+// f(src[·]) - loop indices are anonymous in terms, so the two index terms must read alike.
+func (ts *Terms) elemOf(base, idx *Term, depth int) *Term {
+	if base == nil || base.Op != "alloc" || base.ms == nil || base.ms.Referrers() == nil || depth > 40 {
+		return nil
+	}
+	var st *ssa.Store
+	var sidx ssa.Value
+	for _, al := range sliceAliases(base.ms) {
+		if al.Referrers() == nil {
+			continue
+		}
+		for _, r := range *al.Referrers() {
+			ia, ok := r.(*ssa.IndexAddr)
+			if !ok || ia.Referrers() == nil {
+				continue
+			}
+			for _, r2 := range *ia.Referrers() {
+				s, ok := r2.(*ssa.Store)
+				if !ok || s.Addr != ia {
+					continue
+				}
+				if st != nil {
+					return nil
+				}
+				st, sidx = s, ia.Index
+			}
+		}
+	}
+	if st == nil || !inLoop(st.Block()) {
+		return nil
+	}
+	is := ts.of(sidx, base.fr, depth+1).LooseString()
+	if !strings.Contains(is, "φ") {
+		return nil
+	}
+	if is == idx.LooseString() {
+		return ts.of(st.Val, base.fr, depth+1)
+	}
+	// any other index: the element pattern with the loop index replaced, when the
+	// allocating function has that one loop only and the slice is as long as its input
+	if singleLoop(base.ms.Parent()) && lenOfParam(base.ms.Len) {
+		return substIndex(ts.of(st.Val, base.fr, depth+1), is, idx)
+	}
+	return nil
+}
+
+func singleLoop(f *ssa.Function) bool {
+	n := 0
+	for _, b := range f.Blocks {
+		for _, p := range b.Preds {
+			if b.Dominates(p) {
+				n++
+				break
+			}
+		}
+	}
+	return n == 1
+}
+
+func lenOfParam(v ssa.Value) bool {
+	c, ok := v.(*ssa.Call)
+	if !ok {
+		return false
+	}
+	b, ok := c.Common().Value.(*ssa.Builtin)
+	if !ok || b.Name() != "len" || len(c.Common().Args) != 1 {
+		return false
+	}
+	_, isP := c.Common().Args[0].(*ssa.Parameter)
+	return isP
+}
+
+// substIndex: t with every subterm that reads like `from` replaced by `to`; an element of a
+// literal argument list selected by a constant is that element.
+func substIndex(t *Term, from string, to *Term) *Term {
+	if t == nil {
+		return nil
+	}
+	if t.LooseString() == from {
+		return to
+	}
+	if len(t.Args) == 0 {
+		return t
+	}
+	n := *t
+	n.Args = make([]*Term, len(t.Args))
+	for i, a := range t.Args {
+		n.Args[i] = substIndex(a, from, to)
+	}
+	if n.Op == "index" && n.Name == "" && len(n.Args) == 2 && n.Args[1].Op == "const" && n.Args[0].Op == "call" && n.Args[0].Name == "varargs" {
+		if k, err := strconv.Atoi(n.Args[1].Name); err == nil && k >= 0 && k < len(n.Args[0].Args) {
+			return n.Args[0].Args[k]
+		}
+	}
+	return &n
+}
+
+// sliceAliases: the allocation and the loads of the local variable / struct field it is
+// (alone) stored into: pool := T{Rules: make(...)}; pool.Rules[i] = v.
+func sliceAliases(ms *ssa.MakeSlice) []ssa.Value {
+	out := []ssa.Value{ms}
+	if ms.Referrers() == nil {
+		return out
+	}
+	loadsOf := func(addr ssa.Value) {
+		if addr.Referrers() == nil {
+			return
+		}
+		for _, r := range *addr.Referrers() {
+			if u, ok := r.(*ssa.UnOp); ok && u.Op == token.MUL && u.X == addr {
+				out = append(out, u)
+			}
+		}
+	}
+	for _, r := range *ms.Referrers() {
+		st, ok := r.(*ssa.Store)
+		if !ok || st.Val != ssa.Value(ms) {
+			continue
+		}
+		switch a := st.Addr.(type) {
+		case *ssa.Alloc:
+			n := 0
+			for _, r2 := range *a.Referrers() {
+				if s2, ok := r2.(*ssa.Store); ok && s2.Addr == a {
+					n++
+				}
+			}
+			if n == 1 {
+				loadsOf(a)
+			}
+		case *ssa.FieldAddr:
+			base, ok := a.X.(*ssa.Alloc)
+			if !ok || base.Referrers() == nil {
+				continue
+			}
+			n := 0
+			var fas []*ssa.FieldAddr
+			for _, r2 := range *base.Referrers() {
+				switch y := r2.(type) {
+				case *ssa.FieldAddr:
+					if y.Field != a.Field || y.Referrers() == nil {
+						continue
+					}
+					fas = append(fas, y)
+					for _, r3 := range *y.Referrers() {
+						if s3, ok := r3.(*ssa.Store); ok && s3.Addr == y {
+							n++
+						}
+					}
+				case *ssa.Store:
+					if y.Addr == base {
+						n += 2 // the whole struct is overwritten somewhere
+					}
+				}
+			}
+			if n == 1 {
+				for _, fa := range fas {
+					loadsOf(fa)
+				}
+			}
+		}
+	}
+	return out
+}
+
+// resolveFnValue: the function a function-typed value is on this call chain (a function,
+// a method expression thunk, or a parameter bound to one by a caller); nil for closures
+// over state and anything else.
+func resolveFnValue(v ssa.Value, fr *Frame, d int) *ssa.Function {
+	if d > 8 {
+		return nil
+	}
+	switch x := v.(type) {
+	case *ssa.Function:
+		if strings.HasPrefix(x.Synthetic, "thunk for ") && len(x.Blocks) == 1 {
+			for _, ins := range x.Blocks[0].Instrs {
+				if c, ok := ins.(*ssa.Call); ok && !c.Common().IsInvoke() && c.Common().StaticCallee() != nil {
+					return c.Common().StaticCallee()
+				}
+			}
+			return nil
+		}
+		if x.Parent() != nil {
+			return nil // an anonymous function
+		}
+		return x
+	case *ssa.ChangeType:
+		return resolveFnValue(x.X, fr, d+1)
+	case *ssa.Parameter:
+		if fr == nil || fr.Call == nil {
+			return nil
+		}
+		fn := x.Parent()
+		cc := fr.Call.Common()
+		if cc.IsInvoke() {
+			return nil
+		}
+		for i, p := range fn.Params {
+			if p == x && i < len(cc.Args) {
+				return resolveFnValue(cc.Args[i], fr.Parent, d+1)
+			}
+		}
+	}
+	return nil
+}
+
+func fnNames(f *ssa.Function) (pkg, name string) {
+	o := f
+	if f.Origin() != nil {
+		o = f.Origin()
+	}
+	p := funcPkgPath(o)
+	if o.Signature.Recv() != nil {
+		return p, recvName(o) + "." + o.Name()
+	}
+	return p, o.Name()
 }
